@@ -98,13 +98,18 @@ fn bloom_empty_filter() {
 }
 
 /// contains_hash is a total function on every filter the decoder can produce: arbitrary wire
-/// entry count and bits-per-entry, bit array of NB bytes, probe count P (one harness per (NB, P):
+/// entry count and bits-per-entry consistent with a bit array of NB bytes, probe count P (one harness per (NB, P):
 /// a symbolic probe count makes Vec::with_capacity a symbolic-size allocation, which CBMC does
 /// not finish). No panic, no division by zero, every probe inside the bit array.
 fn contains_total<const NB: usize, const P: u32>() {
     let num_entries: u32 = kani::any();
     let num_bits_per_entry: u32 = kani::any();
     let b: [u8; NB] = kani::any();
+    // Representation invariant of every filter the crate can construct (the fields are private;
+    // parse, from_hashes and default are the only constructors): the bit array has exactly
+    // bits_capacity(entries, bits_per_entry) bytes. The REAL bits_capacity is used, so a change to
+    // it changes the reachable states with it; its arithmetic is pinned by the bloom_bits_capacity_b* harnesses.
+    kani::assume(bits_capacity(num_entries, num_bits_per_entry) == NB);
     let f = BloomFilter {
         num_entries,
         num_bits_per_entry,
@@ -256,3 +261,37 @@ fn bloom_probe_budget_b1() {
 fn bloom_probe_budget_b2() {
     probe_budget::<2>()
 }
+
+
+/// bits_capacity (f64 multiply, divide, ceil, cast) with one factor fixed and the other ANY u32
+/// (a fully symbolic 32x32 floating-point product did not finish in 15 min; multiplication by a
+/// constant keeps the query at seconds): exact ceil(e*b/8) whenever the product fits f64's 53-bit mantissa.
+fn bits_capacity_const<const B: u32>() {
+    let e: u32 = kani::any();
+    let p = (e as u64) * (B as u64);
+    let want = p.div_ceil(8);
+    let got1 = bits_capacity(e, B) as u64;
+    let got2 = bits_capacity(B, e) as u64;
+    assert_eq!(got1, got2);
+    if p < (1u64 << 53) {
+        assert_eq!(got1, want);
+    } else {
+        assert!(got1.abs_diff(want) <= (1 << 11));
+    }
+    kani::cover!(e == u32::MAX);
+    kani::cover!(want == 0);
+}
+macro_rules! bits_capacity_const_harness {
+    ($name:ident, $b:expr) => {
+        #[kani::proof]
+        fn $name() {
+            bits_capacity_const::<$b>()
+        }
+    };
+}
+bits_capacity_const_harness!(bloom_bits_capacity_b0, 0);
+bits_capacity_const_harness!(bloom_bits_capacity_b1, 1);
+bits_capacity_const_harness!(bloom_bits_capacity_b4, 4);
+bits_capacity_const_harness!(bloom_bits_capacity_b10, 10);
+bits_capacity_const_harness!(bloom_bits_capacity_b65536, 0x10000);
+bits_capacity_const_harness!(bloom_bits_capacity_b40000000, 0x4000_0000);
